@@ -296,11 +296,9 @@ Section Later.
     set (k0 := with_seen (with_props (kc c) (k_props (kc c) ++ [e_id e])) ((100000 + e_id e) :: k_seen (kc c))).
     assert (ext (kc c) k0) as E0
       by (repeat split; cbn [k0 with_seen with_props k_seen k_epoch k_active]; [apply incl_tl; apply incl_refl|lia|auto]).
-    destruct (is_admin c && _).
-    - eapply J_frame; [|exact H]. eapply frame_trans; [apply (frame_core c k0); exact E0|]. apply frame_rf. exact Hne.
-    - cbn [fst]. eapply J_frame; [|exact H]. eapply frame_trans; [|apply frame_put; exact Hne].
-      apply frame_core. destruct (is_admin c); [|exact E0].
-      eapply ext_trans; [exact E0|]. apply ext_same; reflexivity.
+    cbn [fst]. eapply J_frame; [|exact H]. eapply frame_trans; [|apply frame_put; exact Hne].
+    apply frame_core. destruct (is_admin c && _); [|exact E0].
+    eapply ext_trans; [exact E0|]. apply ext_same; reflexivity.
   Qed.
 
   Lemma J_commit_here c e r : e_id e <> id -> J c -> J (fst (commit_here c e r)).
@@ -510,8 +508,7 @@ Proof.
          destruct Hwf1 as [Hq _]; rewrite Forall_forall in Hq; destruct (Hq s Hs) as [_ L]; lia
         |]);
        (destruct (e_kind e =? 2);
-        [unfold leave_here; destruct (existsb _ _); [discriminate|]; destruct (is_admin (ens c) && _); [discriminate|];
-         destruct (is_admin (ens c)); discriminate|]);
+        [unfold leave_here; destruct (existsb _ _); [discriminate|]; destruct (is_admin (ens c) && _); discriminate|]);
        unfold commit_here; (destruct (negb (forallb _ (e_refs e))); [discriminate|]);
        (destruct (negb (e_auth e) || (e_bad e =? 8)); [destruct (negb (e_auth e)); discriminate|]); rewrite apply_commit_rk; discriminate.
   all: destruct (wrong_epoch (kc (ens c)) e); [|exact Hhere].
@@ -815,8 +812,7 @@ Proof.
       reflexivity.
     + destruct (e_kind e =? 2).
       * unfold leave_here. destruct (existsb (N.eqb (100000 + e_id e)) (k_seen (kc c))); [apply DS_rf; exact H|].
-        cbv zeta. destruct (is_admin c && _); [apply (DS_rf (set_core c _)); exact H|].
-        cbn [fst]. apply (DS_put (set_core c _)). exact H.
+        cbv zeta. cbn [fst]. apply (DS_put (set_core c _)). exact H.
       * unfold commit_here. destruct (negb (forallb _ (e_refs e))); [apply DS_rf; exact H|].
         destruct (negb (e_auth e) || (e_bad e =? 8)); [apply DS_rf; exact H|apply DS_apply_commit; exact H].
 Qed.
